@@ -1622,7 +1622,10 @@ payment of a paid upload being taken first.  The owner's validly signed records 
 C04 is not affected: every record still sits under the key its own content determines (the chunk under the hash of
 its bytes).  What fails is C07's "the stored version is the highest validly signed version delivered" / "the union of
 all validly signed transactions (operations) delivered", for keys the node did not hold.  Full statements below,
-refuted on concrete histories (replayed on the real node by `./check`), proved under `NoCrossKindSquat`.  The same
+refuted on concrete histories (replayed on the real node by `./check`), each proved under `NoCrossKindSquat`
+(`highest_valid_pad_kept_partial`, `valid_transactions_kept_partial`, `valid_register_kept_partial` — the register one
+additionally under `SameBaseRegister`: an owner-signed base register with other permissions has the same address and
+is refused / refuses as `DifferentBaseRegister`).  The same
 exception was known for the scratchpad / transaction pair of one owner (which share a key by design); the theorems
 now name the general cause.  Repair = domain-separated addresses (a kind tag under the hash): wire format, not small. -/
 section CrossKindSquat
@@ -1635,11 +1638,16 @@ def squat (k : Nat) : Delivery := ⟨true, .chunkp, k, .chunkPre k, some goodPay
 /-- the same chunk arriving by replication -/
 def squatRepl (k : Nat) : Delivery := ⟨false, .chunk, k, .chunkPre k, none⟩
 
-/-- **The named hypothesis of K-f5**: every delivery of the history that reads and writes key `k` carries content of
-family `fam` (1 scratchpad, 2 transaction set, 3 register): no chunk whose bytes are that key's preimage, and — for an
-owner key — not the other owner-keyed kind. -/
+/-- **The named hypothesis of K-f5**: every delivery of the history that reads and writes key `k` and whose content
+decodes at all carries content of family `fam` (1 scratchpad, 2 transaction set, 3 register).  This is MORE than "no
+squatting chunk": it excludes (a) a chunk whose bytes are that key's preimage (`chunkPre k`), (b) for an owner key
+`3·o+1` the OTHER owner-keyed kind of the same owner — with `fam = 1` every transaction delivery of owner `o` (paid
+upload or a replicated vector presented under that key), with `fam = 2` every scratchpad of `o`: the two kinds share
+the key and whichever arrives first keeps it — and (c) any content of another family presented under `k` whose own
+derived key is `k`.  Undecodable content (`.bad`, no family) is allowed: it never parses, hence never writes.
+Deliveries that read and write other keys are unconstrained. -/
 def NoCrossKindSquat (k fam : Nat) (ds : List Delivery) : Prop :=
-  ∀ d ∈ ds, rwKey d = k → contentFam d.content = some fam
+  ∀ d ∈ ds, rwKey d = k → ∀ f, contentFam d.content = some f → f = fam
 
 /-- **Full strength** (C07, scratchpads, a key not held): after any serial history the owner's key holds a validly
 signed scratchpad at least as high as every validly signed version that arrived replicated or fully paid -/
@@ -1717,21 +1725,24 @@ theorem validRegisterKept_false : ¬ ValidRegisterKept := by
 
 /-- under the hypothesis, a put at `k` carries content of the family the key is reserved for -/
 theorem squat_free_put {d : Delivery} {s : Store} {k fam : Nat} {c : Content}
-    (hns : rwKey d = k → contentFam d.content = some fam) (hW : Tok.W k c ∈ (validate d s).2) : c.fam = fam := by
+    (hns : rwKey d = k → ∀ f, contentFam d.content = some f → f = fam) (hW : Tok.W k c ∈ (validate d s).2) :
+    c.fam = fam ∧ contentFam d.content = some fam := by
   rw [validate_trace] at hW
-  obtain ⟨hk, _, _, hwr⟩ := put_any_key hW
-  have hf := hns hk.symm
-  rcases hwr with h | h <;> rw [h] <;> exact written_fam d _ _ fam hf
+  obtain ⟨hk, hf0, _, hwr⟩ := put_any_key hW
+  have hf := hns hk.symm _ hf0
+  rw [hf] at hf0
+  refine ⟨?_, hf0⟩
+  rcases hwr with h | h <;> rw [h] <;> exact written_fam d _ _ fam hf0
 
 theorem squat_free_step_pad {d : Delivery} {s : Store} {o : Nat}
-    (hns : rwKey d = 3 * o + 1 → contentFam d.content = some 1)
+    (hns : rwKey d = 3 * o + 1 → ∀ f, contentFam d.content = some f → f = 1)
     (hinv : s.get (3 * o + 1) = none ∨ ∃ m, s.get (3 * o + 1) = some (.pad m true)) :
     (deliverSeq s d).get (3 * o + 1) = none ∨ ∃ m, (deliverSeq s d).get (3 * o + 1) = some (.pad m true) := by
   unfold deliverSeq
   rcases applyToks_get (validate d s).2 s (3 * o + 1) with h | ⟨c, hm, hg⟩
   · rw [h]; exact hinv
   · right
-    have hf := squat_free_put hns hm
+    have hf := (squat_free_put hns hm).1
     cases c with
     | pad n v =>
       obtain ⟨hv, _⟩ := stored_scratchpad_valid d s _ n v hm
@@ -1770,14 +1781,14 @@ theorem highest_valid_pad_kept_partial (ds : List Delivery) (s : Store) (o n : N
     · exact ih (deliverSeq s d0) hinv' hnsr hd
 
 theorem squat_free_step_txs {d : Delivery} {s : Store} {k : Nat}
-    (hns : rwKey d = k → contentFam d.content = some 2)
+    (hns : rwKey d = k → ∀ f, contentFam d.content = some f → f = 2)
     (hinv : s.get k = none ∨ ∃ l, s.get k = some (.txs l)) :
     (deliverSeq s d).get k = none ∨ ∃ l, (deliverSeq s d).get k = some (.txs l) := by
   unfold deliverSeq
   rcases applyToks_get (validate d s).2 s k with h | ⟨c, hm, hg⟩
   · rw [h]; exact hinv
   · right
-    have hf := squat_free_put hns hm
+    have hf := (squat_free_put hns hm).1
     cases c with
     | txs l => exact ⟨l, hg⟩
     | chunk => simp [Content.fam] at hf
@@ -1817,6 +1828,102 @@ theorem valid_transactions_kept_partial (ds : List Delivery) (s : Store) (o t : 
       rw [localTxs, hg2]
       exact hsub t ht
     · exact ih (deliverSeq s d0) hinv' hnsr hd
+
+/-- non-vacuity of the two `_partial` theorems: the hypotheses are met by histories that contain a squatting chunk on
+ANOTHER key (and end as the theorems say) -/
+example : ∃ M, (runSerial [] [upd 3, squat 2, upd 7]).get (3 * 0 + 1) = some (.pad M true) ∧ 7 ≤ M :=
+  highest_valid_pad_kept_partial [upd 3, squat 2, upd 7] [] 0 7 (upd 7) .repl (Or.inl rfl)
+    (by intro d hd; simp only [List.mem_cons, List.not_mem_nil, or_false] at hd; rcases hd with rfl | rfl | rfl <;> decide)
+    (by simp) rfl
+example : (runSerial [] [upd 3, squat 2, upd 7]).get 1 = some (.pad 7 true) := by decide
+example : 2 ∈ localTxs (runSerial [] [txd 1, squat 2, txVec (3 * 0 + 1) [⟨0, 2, true⟩]]) (3 * 0 + 1) :=
+  valid_transactions_kept_partial [txd 1, squat 2, txVec (3 * 0 + 1) [⟨0, 2, true⟩]] [] 0 2 (Or.inl rfl)
+    (by intro d hd; simp only [List.mem_cons, List.not_mem_nil, or_false] at hd; rcases hd with rfl | rfl | rfl <;> decide)
+    (by simp)
+example : localTxs (runSerial [] [txd 1, squat 2, txVec 1 [⟨0, 2, true⟩]]) 1 = [1, 2] := by decide
+
+/-! ### Registers -/
+
+/-- every register delivered for key `k` has the base register with owner-only permissions (`regAlt = false`): the
+base register (permissions included) is owner-signed but NOT part of the address, so the owner can sign two base
+registers for one address; the node keeps whichever arrived first and refuses the other (`DifferentBaseRegister`) -/
+def SameBaseRegister (k : Nat) (ds : List Delivery) : Prop :=
+  ∀ d ∈ ds, rwKey d = k → ∀ id b ops, d.content = .reg id b ops → regAlt b = false
+
+theorem squat_free_step_reg {d : Delivery} {s : Store} {k : Nat}
+    (hns : rwKey d = k → ∀ f, contentFam d.content = some f → f = 3)
+    (hb : rwKey d = k → ∀ id b ops, d.content = .reg id b ops → regAlt b = false)
+    (hinv : s.get k = none ∨ ∃ l, s.get k = some (.reg false l)) :
+    (deliverSeq s d).get k = none ∨ ∃ l, (deliverSeq s d).get k = some (.reg false l) := by
+  unfold deliverSeq
+  rcases applyToks_get (validate d s).2 s k with h | ⟨c, hm, hg⟩
+  · rw [h]; exact hinv
+  · right
+    have hf := (squat_free_put hns hm).2
+    rw [validate_trace] at hm
+    obtain ⟨hk, _, _, hwr⟩ := put_any_key hm
+    obtain ⟨id, b, ops, hc⟩ : ∃ id b ops, d.content = .reg id b ops := by
+      cases hcc : d.content <;> simp [hcc, contentFam] at hf
+      exact ⟨_, _, _, rfl⟩
+    have hbf := hb hk.symm id b ops hc
+    have hgk : (seqAns d s).g = some (s.get k) := by rw [seq_g, ← hk]
+    have hcw : ∃ l, c = .reg false l := by
+      rcases hinv with hn | ⟨l, hl⟩
+      · rw [hn] at hgk
+        rcases hwr with h | h <;> (rw [h]; simp only [written, hc, hgk, hbf]; exact ⟨_, rfl⟩)
+      · rw [hl] at hgk
+        rcases hwr with h | h <;> (rw [h]; simp only [written, hc, hgk, hbf]; exact ⟨_, rfl⟩)
+    obtain ⟨l, rfl⟩ := hcw
+    exact ⟨l, hg⟩
+
+/-- a replicated register copy that verifies, for a key not held: stored as it is -/
+theorem replicated_reg_applied_fresh (s : Store) (id x : Nat) (hnone : s.get (3 * id + 2) = none) :
+    (deliverSeq s (regVec id .good [⟨x, .v⟩])).get (3 * id + 2) = some (.reg false [x]) := by
+  have e1 : regVerifies = true := by decide
+  have e2 : regReplChecksKey = true := by decide
+  simp [deliverSeq, validate, seqAns, regVec, rwKey, route, replRoute, derivedKey, hnone, obsOfAns, parseOk,
+    contentFam, kindFam, isPaid, skel, storeReg, rej, Out.trace, e1, e2, applyToks, inst, written, get_put_same,
+    union, insertSorted, regAlt, opValid]
+
+/-- **`_partial` (registers), named hypotheses `NoCrossKindSquat` and `SameBaseRegister`**: per-key serialisation,
+the register's key not held (or holding that register), nothing but copies of that base register delivered for the
+key — then a permitted operation of a replicated copy that verifies is in the stored register afterwards. -/
+theorem valid_register_kept_partial (ds : List Delivery) (s : Store) (id x : Nat)
+    (hinv : s.get (3 * id + 2) = none ∨ ∃ l, s.get (3 * id + 2) = some (.reg false l))
+    (hns : NoCrossKindSquat (3 * id + 2) 3 ds) (hb : SameBaseRegister (3 * id + 2) ds)
+    (hd : regVec id .good [⟨x, .v⟩] ∈ ds) :
+    ∃ l, (runSerial s ds).get (3 * id + 2) = some (.reg false l) ∧ x ∈ l := by
+  induction ds generalizing s with
+  | nil => cases hd
+  | cons d0 rest ih =>
+    have hns0 := hns d0 (List.mem_cons_self ..)
+    have hb0 := hb d0 (List.mem_cons_self ..)
+    have hnsr : NoCrossKindSquat (3 * id + 2) 3 rest := fun d' h' => hns d' (List.mem_cons_of_mem _ h')
+    have hbr : SameBaseRegister (3 * id + 2) rest := fun d' h' => hb d' (List.mem_cons_of_mem _ h')
+    have hinv' := squat_free_step_reg hns0 hb0 hinv
+    rcases List.mem_cons.mp hd with rfl | hd
+    · have hnow : ∃ l1, (deliverSeq s (regVec id .good [⟨x, .v⟩])).get (3 * id + 2) = some (.reg false l1) ∧ x ∈ l1 := by
+        rcases hinv with hnone | ⟨l, hl⟩
+        · exact ⟨[x], replicated_reg_applied_fresh s id x hnone, by simp⟩
+        · obtain ⟨l1, hg1, hm1⟩ := replicated_reg_applied s id .good [⟨x, .v⟩] false l hl
+          exact ⟨l1, hg1, (hm1 x).mpr (Or.inr (by simp [accOps, accepts, opValid, regAlt]))⟩
+      obtain ⟨l1, hg1, hx⟩ := hnow
+      obtain ⟨l2, hg2, hsub⟩ := serial_register_never_lost_partial rest _ _ false l1 hg1
+      exact ⟨l2, hg2, hsub x hx⟩
+    · exact ih (deliverSeq s d0) hinv' hnsr hbr hd
+
+example : ∃ l, (runSerial [] [regVec 0 .good [⟨1, .v⟩], squat 1, regVec 0 .good [⟨2, .v⟩]]).get (3 * 0 + 2) = some (.reg false l) ∧ 2 ∈ l :=
+  valid_register_kept_partial [regVec 0 .good [⟨1, .v⟩], squat 1, regVec 0 .good [⟨2, .v⟩]] [] 0 2 (Or.inl rfl)
+    (by intro d hd; simp only [List.mem_cons, List.not_mem_nil, or_false] at hd; rcases hd with rfl | rfl | rfl <;> decide)
+    (by
+      intro d hd
+      simp only [List.mem_cons, List.not_mem_nil, or_false] at hd
+      rcases hd with rfl | rfl | rfl <;> intro _ id b ops hc <;> simp only [regVec, squat] at hc <;>
+        first | (cases hc; rfl) | cases hc)
+    (by simp)
+example : (runSerial [] [regVec 0 .good [⟨1, .v⟩], squat 1, regVec 0 .good [⟨2, .v⟩]]).get 2 = some (.reg false [1, 2]) := by decide
+/-- the other base register first: the owner-only copy is refused from then on (why `SameBaseRegister` is needed) -/
+example : (runSerial [] [regVec 0 .alt [⟨1, .v⟩], regVec 0 .good [⟨2, .v⟩]]).get 2 = some (.reg true [1]) := by decide
 
 end CrossKindSquat
 
@@ -2025,3 +2132,4 @@ end SafeNet.Props.C07
 #print axioms SafeNet.Props.C07.hist_register_never_lost_partial
 
 #print axioms SafeNet.Props.C07.unacked_pad_replaced_by_chunk_witness
+#print axioms SafeNet.Props.C07.valid_register_kept_partial
